@@ -252,6 +252,15 @@ Definition spec_tobs (p : pt) (vals : list (name * Z)) (V : list name) : tobs :=
 
 Definition warn_free (o : tobs) : bool := match o with TTree _ w => negb w | _ => true end.
 
+(* what a program tree plays is what the template denotes under the given values (holds for every pipeline: cleanup
+   and flatten_and_balance rearrange loops, they do not change the play-back) *)
+Definition tree_play_ok (p : pt) (vals : list (name * Z)) (V : list name) (t : otree) : bool :=
+  match spec_program p vals V with
+  | Some (Some st) => list_N_eqb (oplay t) (oplay st)
+  | Some None => match oplay t with [] => true | _ => false end
+  | None => true
+  end.
+
 (* after_i (implementation, updated in place) against fresh_i (implementation, re-instantiated) *)
 Definition updated_matches_fresh (pl : pipeline) (before_warn_free : bool) (a : otree) (f : tobs) : bool :=
   match f with
@@ -273,6 +282,8 @@ Fixpoint spec_tree_steps (p : pt) (vals : list (name * Z)) (V : list name) (pl :
       (* instantiation with the new values marks exactly the dependent counts *)
       match pl with PLNone => tobs_eqb f (spec_tobs p vals' V) | _ => true end &&
       updated_matches_fresh pl bwf a f &&
+      (* volatility was kept (no VolatileModificationWarning): the updated program plays the template's denotation *)
+      (if bwf then tree_play_ok p vals' V a else true) &&
       spec_tree_steps p vals' V pl bwf r ar fr
   | _, _, _ => false
   end.
@@ -281,7 +292,7 @@ Definition check_spec_tree p vals V pl ups before after fresh : bool :=
   if negb (forallb (fun us => keys_in us V) ups) then true else
   match pl with PLNone => tobs_eqb before (spec_tobs p vals V) | _ => true end &&
   match before with
-  | TTree _ _ => spec_tree_steps p vals V pl (warn_free before) ups after fresh
+  | TTree bt _ => tree_play_ok p vals V bt && spec_tree_steps p vals V pl (warn_free before) ups after fresh
   | _ => true
   end.
 
